@@ -32,6 +32,7 @@ def main(argv=None):
                     help="run N seeds twice and compare event-log digests; no evidence written")
     ap.add_argument("--digests", action="store_true", help="with --selftest-determinism: print idx:digest lines")
     ap.add_argument("--no-evidence", action="store_true")
+    ap.add_argument("--run-seed", type=int, default=None, help="execute the run with this run seed, minimise a violation and print the trace")
     ap.add_argument("--one", type=int, default=None, metavar="IDX", help="run a single index in-process fork and print its result")
     args = ap.parse_args(argv)
 
@@ -48,6 +49,22 @@ def main(argv=None):
 
     if args.replay:
         return do_replay(mod, args, driver)
+    if args.run_seed is not None:
+        trace = driver.make_trace(mod, args.run_seed, args.tier, None)
+        res = driver.fork_run(mod, trace, args.tier, 3600)
+        vs = [v for v in res.get("violations") or []]
+        print("harness_error:", res.get("harness_error"))
+        for v in vs:
+            print("violation:", v["oracle"], v["detail"][:1500], v.get("sig"), "known=" + str(v.get("known")))
+        if vs:
+            tr = dict(vs[0].get("trace") or res.get("trace"))
+            tr["seed"] = args.run_seed
+            small, n = driver.minimise(mod, args.tier, tr, vs[0]["oracle"], 600, max_tests=150, max_wall=120)
+            print("minimised with", n, "runs:")
+            print(json.dumps({k: v for k, v in small.items() if k != "ops"}, default=str))
+            for o in small.get("ops") or []:
+                print("   ", json.dumps(o))
+        return 1 if vs else 0
     if args.one is not None:
         seed = driver.run_seed(master, mod.NAME, args.one)
         trace = driver.make_trace(mod, seed, args.tier, args.one)
